@@ -16,6 +16,10 @@ func main() {
 		fmt.Println("BUILD ERROR:", err)
 		return
 	}
+	if os.Getenv("PROBE_DIS") != "" {
+		asm, _ := p.Disassemble("main")
+		fmt.Println(string(asm))
+	}
 	var ro *scriggo.RunOptions
 	var cancel context.CancelFunc
 	if os.Getenv("PROBE_CANCEL") != "" {
